@@ -201,8 +201,9 @@ type Driver struct {
 	subscriptions     map[int][][]byte
 	subscriptionsLock *sync.Mutex
 
-	errs chan error
-	done chan bool
+	errs     chan error
+	done     chan bool
+	doneOnce sync.Once
 }
 
 // Open opens the underlying generic.Driver, and by extension the channel.Channel and Transport
@@ -255,7 +256,11 @@ func (d *Driver) Close() error {
 		d.Transport.Args.Port,
 	)
 
-	d.done <- true
+	// close rather than send: the read loop may be parked handing over an error (or be gone), and
+	// Close may be called more than once
+	d.doneOnce.Do(func() {
+		close(d.done)
+	})
 
 	err := d.Channel.Close()
 	if err != nil {
